@@ -81,6 +81,15 @@ func entryPoints(bi *BasmInstance) error {
 				return errors.New("entry point not detected")
 			}
 
+			// The labels written before the entry directive belong to the instruction that follows it
+			if symbols := body.Lines[checkLine].GetMeta("symbol"); symbols != "" && checkLine+1 < len(body.Lines) {
+				next := body.Lines[checkLine+1]
+				if nextSymbols := next.GetMeta("symbol"); nextSymbols != "" {
+					symbols = symbols + ":" + nextSymbols
+				}
+				next.BasmMeta = next.SetMeta("symbol", symbols)
+			}
+
 			// Removing the entry directive line
 			copy(body.Lines[checkLine:], body.Lines[checkLine+1:])
 			body.Lines[len(body.Lines)-1] = nil
